@@ -430,9 +430,9 @@ func newHarness(wc int, deadlineMs int) (*harness, error) {
 
 func nid(who string, n int) string {
 	if who == "op" {
-		return fmt.Sprintf("o%d", n)
+		return fmt.Sprintf("o%02d", n)
 	}
-	return fmt.Sprintf("s%d", n)
+	return fmt.Sprintf("s%02d", n)
 }
 
 func (h *harness) member(who string, pos int) (string, bool) {
